@@ -120,6 +120,7 @@ def particle_swarm(
     best_idx = min(range(n_particles), key=lambda i: fitness[i])
     best_solution = positions[best_idx][:]
     best_obj = fitness[best_idx]
+    iteration = 0
 
     for iteration in range(1, max_iter + 1):
         # Compute current inertia (with optional decay)
